@@ -273,6 +273,8 @@ func stringClass(s string) string {
 	switch {
 	case s == "":
 		return "empty"
+	case s == "." || s == "..":
+		return "dot-segment"
 	case pctHex.MatchString(s):
 		return "pct-hexpair"
 	case strings.Contains(s, "%"):
